@@ -167,8 +167,9 @@ def make_history(r, nsteps=None):
                   'dicts': dicts, 'inject': draw_inject(r)}
             if dicts == 'seeded':
                 op['seed_consts'] = {k: r.randint(0, 2000) for k in r.sample(K, r.randint(1, 3))} if r.random() < 0.7 else {'SEEDED': 5, 'ALSO': 6}
-                if r.random() < 0.3:
-                    op['seed_labels'] = {r.choice(L): r.randrange(0, 64, 4)}
+                if r.random() < 0.5:
+                    # labels the caller already knows (e.g. from a previous build), in no particular order
+                    op['seed_labels'] = {k: r.randrange(0, 64, 4) for k in r.sample(L, r.randint(1, 4))}
             ops.append(op)
             if pool[i]['kind'].startswith('fail-') and pool[i]['is_path'] and r.random() < 0.5:
                 # the edit-compile cycle: the call fails, the user repairs the line (and touches two immediates), assembles again
